@@ -129,6 +129,15 @@ def install(I):
         return typing_inspect.get_generic_bases(v)
 
     M[id(typing_inspect.get_origin)] = get_origin
+    orig_contains = I.contains
+
+    def contains(c, x):
+        # `name in SomeClass.__dict__` (a mappingproxy of a live class): concrete
+        if isinstance(c, pytypes.MappingProxyType) and isinstance(x, (str, int, type)):
+            return x in c
+        return orig_contains(c, x)
+
+    I.contains = contains
     M[id(typing_inspect.get_generic_bases)] = get_generic_bases
 
 
@@ -165,3 +174,40 @@ class SymMapping:
         if v is None:
             I.raise_py(KeyError, k)
         return v
+
+
+def install_str_like(I):
+    """a symbolic `str` behaves like a str under reflection: `x.__class__ is str`, `getattr(x, name, default)` follows
+    the attributes every str has; `type(None)(x)` raises TypeError like CPython ("NoneType takes no arguments")."""
+    import builtins
+
+    orig_getattr = I.getattr
+
+    def getattr_(v, name):
+        if isinstance(v, SStr) and name == "__class__":
+            return str
+        return orig_getattr(v, name)
+
+    I.getattr = getattr_
+    orig_model = I.models[id(builtins.getattr)]
+
+    def getattr_model(I_, v, name, *default):
+        if isinstance(v, SStr):
+            if name == "__class__":
+                return str
+            if not hasattr("", name):
+                if default:
+                    return default[0]
+                I_.raise_py(AttributeError, name)
+            raise Unsupported(f"attribute {name} of a symbolic str")
+        return orig_model(I_, v, name, *default)
+
+    I.models[id(builtins.getattr)] = getattr_model
+    orig_inst = I.instantiate
+
+    def instantiate(cls, args, kwargs):
+        if cls is type(None) and (args or kwargs):
+            I.raise_py(TypeError, "NoneType takes no arguments")
+        return orig_inst(cls, args, kwargs)
+
+    I.instantiate = instantiate
